@@ -206,7 +206,12 @@ def check_align_e2e(facts, chk, rule, tier):
     nsamp = (2, 3) if tier != 'thorough' else (2, 3, 4)
     for ns in nsamp:
         alleles_per_site = [[a for a in itertools.product('ACGT', repeat=ns) if len(set(a)) > 1][:: (7 if tier != 'thorough' else 3)] for _ in sites]
-        for combo in itertools.islice(itertools.product(*alleles_per_site), 0, None, 17 if tier != 'thorough' else 3):
+        total = 1
+        for x in alleles_per_site:
+            total *= len(x)
+        # thorough: an evenly spaced sample of at most ~400 allele assignments per sample count (the full product for 4 samples is 6e5)
+        stride = 17 if tier != 'thorough' else max(3, (total // 400) | 1)
+        for combo in itertools.islice(itertools.product(*alleles_per_site), 0, None, stride):
             samples = []
             for s in range(ns):
                 g = list(anc)
